@@ -20,6 +20,8 @@ type c08Case struct {
 	// Derive != "": the invalid configuration is an edit of the middleware's current Config() (Bad is ignored)
 	Derive string   `json:"derived_from_current,omitempty"`
 	Cont   []string `json:"continuation"`
+	// Shape 1: Bad is handed over with its lists as windows of one backing array, unused lists empty but non-nil
+	Shape int `json:"slice_shape,omitempty"`
 }
 
 var c08Derivations = []string{"cur+maxage", "cur+origin+badmethod", "cur+origins+status", "cur+origin+badorigin", "cur-reversed+origin+badheader", "cur+pna-both",
@@ -165,7 +167,9 @@ func c08Replay(init string, hist []string) (*cors.Middleware, *vlib.Failure) {
 }
 
 func c08Judge(k c08Case) *vlib.Failure {
-	smEnsure()
+	if f := smEnsure(); f != nil {
+		return f
+	}
 	m, f := c08Replay(k.Init, k.Hist)
 	if f != nil {
 		return f
@@ -174,6 +178,9 @@ func c08Judge(k c08Case) *vlib.Failure {
 	before := observe(m, smSuite)
 	cfgBefore := m.Config()
 	bad := k.Bad.Config()
+	if k.Shape == 1 {
+		bad = k.Bad.ConfigAlt()
+	}
 	badText := k.Bad.GoLiteral()
 	if k.Derive != "" {
 		d := c08Derive(cfgBefore, k.Derive)
@@ -222,7 +229,10 @@ func checkC08(c *vlib.Ctx) (string, string) {
 	if ck.Replay() {
 		return levelMC, rule
 	}
-	smEnsure()
+	if f := smEnsure(); f != nil {
+		ck.Report(c08Case{Init: "zero"}, f)
+		return levelMC, rule
+	}
 	bads := c08Bads()
 	conts := lists(smOps, vlib.Pick(c, 2, 3))
 	for _, init := range []string{"new(A)", "zero"} {
@@ -263,6 +273,13 @@ func checkC08(c *vlib.Ctx) (string, string) {
 			c.Transitions.Add(int64(1 + len(k.Cont)))
 			if ck.Try(k) && len(k.Hist) > 0 {
 				c.Nontrivial.Add(1)
+			}
+			if b := k.Bad; k.Derive == "" && (len(b.Origins) == 0 || len(b.Methods) == 0 || len(b.RequestHeaders) == 0 || len(b.ResponseHeaders) == 0 || ix[2]%4 == 0) {
+				// the other slice shape: always where a list is empty (nil versus empty non-nil), else for every fourth continuation
+				k2 := k
+				k2.Shape = 1
+				c.Transitions.Add(int64(1 + len(k.Cont)))
+				ck.Try(k2)
 			}
 			c.SampleAt(i+1, func() any { return k })
 		})
